@@ -43,18 +43,21 @@ enum Step {
     CompleteCommit(u64),
     CompleteAbort(u64),
     Timeouts(u64),
+    /// a further recover_from_wal() call on the LIVE coordinator
+    Recover,
 }
 impl Step {
     fn coq(&self) -> String {
         match self {
-            Step::Begin(t, ps) => format!("Begin {} {}", t, list(ps.iter().map(|p| n(*p)))),
-            Step::Lock(h, t) => format!("Lock {h} {t}"),
-            Step::Vote(t, s, v) => format!("Vote {} {} {}", t, s, v.coq()),
-            Step::Commit(t, o) => format!("Commit {} {}", t, list(o.iter().map(|h| n(*h)))),
-            Step::Abort(t) => format!("Abort {t}"),
-            Step::CompleteCommit(t) => format!("CompleteCommit {t}"),
-            Step::CompleteAbort(t) => format!("CompleteAbort {t}"),
-            Step::Timeouts(now) => format!("Timeouts {now}"),
+            Step::Begin(t, ps) => format!("XS (Begin {} {})", t, list(ps.iter().map(|p| n(*p)))),
+            Step::Lock(h, t) => format!("XS (Lock {h} {t})"),
+            Step::Vote(t, s, v) => format!("XS (Vote {} {} {})", t, s, v.coq()),
+            Step::Commit(t, o) => format!("XS (Commit {} {})", t, list(o.iter().map(|h| n(*h)))),
+            Step::Abort(t) => format!("XS (Abort {t})"),
+            Step::CompleteCommit(t) => format!("XS (CompleteCommit {t})"),
+            Step::CompleteAbort(t) => format!("XS (CompleteAbort {t})"),
+            Step::Timeouts(now) => format!("XS (Timeouts {now})"),
+            Step::Recover => "XRecover".into(),
         }
     }
 }
@@ -297,6 +300,10 @@ fn apply(c: &DistributedTxCoordinator, s: &mut Step, ids: &mut Ids, wal: &Path, 
             v.extend(out);
             v
         }
+        Step::Recover => match c.recover_from_wal() {
+            Ok(st) => vec![4, st.pending_prepare as u64, st.pending_commit as u64, st.pending_abort as u64, st.lock_releases_recovered as u64],
+            Err(_) => vec![1, 7],
+        },
     }
 }
 
@@ -620,6 +627,8 @@ fn gen_scenario(r: &mut Rng, ngen: usize, next_tx: &mut u64, next_h: &mut u64, c
             } else if k < 93 && !live.is_empty() {
                 let (t, _) = r.pick(&live).clone();
                 steps.push(if r.chance(1, 2) { Step::CompleteCommit(t) } else { Step::CompleteAbort(t) });
+            } else if k < 96 {
+                steps.push(Step::Recover);
             } else {
                 clock += *r.pick(&[10u64, 2000, 6000]);
                 steps.push(Step::Timeouts(clock));
@@ -674,6 +683,46 @@ fn main() {
         ],
         vec![pick_back(40), pick_end()],
         vec![0, 3000],
+    );
+
+    // a duplicate vote (other lock handle / other answer) while the transaction is still collecting
+    // votes: rejected live (DuplicateVote) but logged; then the last vote arrives (Prepared); restart
+    run_case(
+        &mut cx,
+        "corpus duplicate-vote-while-preparing",
+        vec![
+            vec![
+                Step::Begin(0, vec![0, 1]), Step::Lock(0, 0), Step::Vote(0, 0, V::Yes(0)), Step::Lock(1, 0), Step::Vote(0, 0, V::Yes(1)),
+                Step::Vote(0, 0, V::No), Step::Lock(2, 0), Step::Vote(0, 1, V::Yes(2)),
+            ],
+            vec![Step::Commit(0, vec![])],
+        ],
+        vec![pick_end(), pick_end()],
+        vec![0, 100],
+    );
+    // a further recovery call while a transaction is still collecting votes; the remaining vote
+    // arrives (Prepared); crash at every byte; restart; commit; restart
+    run_case(
+        &mut cx,
+        "corpus recovery-call-mid-vote",
+        vec![
+            vec![Step::Begin(0, vec![0]), Step::Lock(0, 0), Step::Vote(0, 0, V::Yes(0)), Step::Commit(0, vec![])],
+            vec![Step::Begin(1, vec![0, 1]), Step::Lock(1, 1), Step::Vote(1, 0, V::Yes(1)), Step::Recover, Step::Lock(2, 1), Step::Vote(1, 1, V::Yes(2))],
+            vec![Step::Recover, Step::Commit(1, vec![]), Step::Recover],
+        ],
+        vec![pick_end(), pick_end(), pick_end()],
+        vec![0, 100, 100],
+    );
+    // recovery calls on a live coordinator with prepared / aborted / completed transactions around
+    run_case(
+        &mut cx,
+        "corpus recovery-calls-live",
+        vec![vec![
+            Step::Begin(0, vec![0, 1]), Step::Lock(0, 0), Step::Vote(0, 0, V::Yes(0)), Step::Recover, Step::Lock(1, 0), Step::Vote(0, 1, V::Yes(1)),
+            Step::Recover, Step::Begin(1, vec![2]), Step::Lock(2, 1), Step::Vote(1, 2, V::Yes(2)), Step::Abort(1), Step::Recover, Step::Commit(0, vec![]), Step::Recover,
+        ]],
+        vec![pick_end()],
+        vec![0],
     );
 
     // ---------------- seeded ----------------
